@@ -679,10 +679,10 @@ func clipS(ss []string) []string {
 
 // connectRequest: the real NewTunnel over loopback; the connect request's
 // endpoints must be the socket's real local endpoint or the NAT form.
-func connectRequest(tcp, sendLocal bool) {
+func connectRequest(tcp, sendLocal, zeroTimings bool) {
 	nConnReq++
 	r.Eval(1)
-	sig := fmt.Sprintf("connect tcp=%v send-local-address=%v", tcp, sendLocal)
+	sig := fmt.Sprintf("connect tcp=%v send-local-address=%v default-timings=%v", tcp, sendLocal, zeroTimings)
 	r.Crumb("C16 %s", sig)
 	attrs := map[string]string{"scenario": sig}
 	type seen struct {
@@ -752,7 +752,12 @@ func connectRequest(tcp, sendLocal bool) {
 		}()
 	}
 	defer stop()
-	t, err := knx.NewTunnel(addr, knxnet.TunnelLayerData, knx.TunnelConfig{ResendInterval: 200 * time.Millisecond, HeartbeatInterval: time.Minute, ResponseTimeout: 3 * time.Second, SendLocalAddress: sendLocal, UseTCP: tcp})
+	tc := knx.TunnelConfig{ResendInterval: 200 * time.Millisecond, HeartbeatInterval: time.Minute, ResponseTimeout: 3 * time.Second, SendLocalAddress: sendLocal, UseTCP: tcp}
+	if zeroTimings {
+		// only the two options are set; the timings are left to the defaults
+		tc = knx.TunnelConfig{SendLocalAddress: sendLocal, UseTCP: tcp}
+	}
+	t, err := knx.NewTunnel(addr, knxnet.TunnelLayerData, tc)
 	if err != nil {
 		r.Violate("connect.failed", attrs, nil, "[%s] NewTunnel over loopback failed: %v", sig, err)
 		return
@@ -781,6 +786,22 @@ func connectRequest(tcp, sendLocal bool) {
 			"[%s] the connect request advertises control endpoint %+v and data endpoint %+v; expected %+v (source of the request: %s)", sig, p.Control, p.Tunnel, want, s.from)
 		return
 	}
+	if tcp {
+		// on a TCP tunnel a Send returns without waiting for an acknowledgement
+		t0 := time.Now()
+		errc := make(chan error, 1)
+		go func() { errc <- t.Send(gateway.Req(77)) }()
+		select {
+		case err := <-errc:
+			if err != nil || time.Since(t0) > 150*time.Millisecond {
+				r.Violate("connect.tcp-send", attrs, map[string]interface{}{"scenario": sig, "error": fmt.Sprint(err), "took_ms": float64(time.Since(t0)) / 1e6}, "[%s] Send on the TCP tunnel returned %v after %v (it must not wait for an acknowledgement)", sig, err, time.Since(t0))
+				return
+			}
+		case <-time.After(2 * time.Second):
+			r.Violate("connect.tcp-send", attrs, map[string]interface{}{"scenario": sig}, "[%s] Send on the TCP tunnel is waiting for an acknowledgement (configured UseTCP is not in effect)", sig)
+			return
+		}
+	}
 	r.DistinctStr(sig)
 	if r.WantSample() {
 		r.Sample(map[string]interface{}{"kind": "connect-request", "scenario": sig, "frame": hex.EncodeToString(s.frame), "datagram_source": s.from.String()})
@@ -806,7 +827,8 @@ func run(rr *mon.Run) {
 		}
 		for _, tcp := range []bool{false, true} {
 			for _, sl := range []bool{false, true} {
-				connectRequest(tcp, sl)
+				connectRequest(tcp, sl, false)
+				connectRequest(tcp, sl, true)
 			}
 		}
 	}
